@@ -34,6 +34,41 @@ pub proof fn lemma_char_idx(s: Seq<char>, b: int)
     requires is_boundary(s, b),
     ensures 0 <= char_idx(s, b) <= s.len(), boff(s, char_idx(s, b)) == b,
 { }
+/// k leading ASCII characters occupy k bytes
+pub proof fn lemma_ascii_boff(s: Seq<char>, k: int)
+    requires 0 <= k <= s.len(), forall|j: int| 0 <= j < k ==> (#[trigger] s[j] as u32) < 128,
+    ensures boff(s, k) == k, is_boundary(s, k),
+    decreases k,
+{
+    broadcast use ax_blen;
+    if k > 0 { lemma_ascii_boff(s, k - 1); }
+    assert(is_boundary(s, k)) by { assert(k == boff(s, k)); }
+}
+/// after a one-byte character at index j, byte offset +2 is a boundary iff the next character exists and is one byte wide
+pub proof fn lemma_two_more(s: Seq<char>, j: int)
+    requires 0 <= j < s.len(), blen(s[j]) == 1,
+    ensures is_boundary(s, boff(s, j) + 2) <==> (j + 1 < s.len() && blen(s[j + 1]) == 1),
+        (j + 1 < s.len() && blen(s[j + 1]) == 1) ==> char_idx(s, boff(s, j) + 2) == j + 2,
+{
+    broadcast use ax_blen;
+    lemma_boff_mono(s, 0, j);
+    assert(boff(s, j + 1) == boff(s, j) + 1);
+    if j + 1 < s.len() && blen(s[j + 1]) == 1 {
+        assert(boff(s, j + 2) == boff(s, j) + 2);
+        assert(is_boundary(s, boff(s, j) + 2));
+        lemma_char_idx(s, boff(s, j) + 2);
+        lemma_boff_inj(s, j + 2, char_idx(s, boff(s, j) + 2));
+    }
+    if is_boundary(s, boff(s, j) + 2) {
+        let k = char_idx(s, boff(s, j) + 2);
+        lemma_char_idx(s, boff(s, j) + 2);
+        if k <= j + 1 { lemma_boff_mono(s, k, j + 1); }
+        assert(k >= j + 2);
+        assert(j + 1 < s.len());
+        assert(boff(s, j + 2) == boff(s, j + 1) + blen(s[j + 1]));
+        lemma_boff_mono(s, j + 2, k);
+    }
+}
 pub assume_specification<'a>[ core::str::Chars::<'a>::as_str ](c: &core::str::Chars<'a>) -> (r: &'a str) ensures r@ == c.remaining();
 // `s.len()` in bytes
 #[verifier::external_body] pub fn str_blen(s: &str) -> (r: usize) ensures r == boff(s@, s@.len() as int) { s.len() }
